@@ -96,17 +96,19 @@ Definition a_join (a inc : attrs) : attrs :=
 Definition ca_replace (a : attrs) (n : string) (v : aval) : attrs :=  (* ContainedAttributes.ReplaceAttribute *)
   if a_has a n then a_replace a n v else a_add a n v.
 
-Fixpoint last_index (a : attrs) (n : string) (i : nat) (found : option nat) : option nat :=
+(* Attributes.Remove: removeIndex = the LAST index whose entry has the name; the result is a[:removeIndex] followed by
+   a[removeIndex+1:].  removeIndex stays -1 when no entry has the name and a[:-1] panics (Attributes.go:73): [None]. *)
+Fixpoint remove_last (a : attrs) (n : string) : option attrs :=
   match a with
-  | [] => found
-  | (k, _) :: a' => last_index a' n (S i) (if String.eqb k n then Some i else found)
+  | [] => None
+  | (k, v) :: a' =>
+      match remove_last a' n with
+      | Some r => Some ((k, v) :: r)
+      | None => if String.eqb k n then Some a' else None
+      end
   end.
-(* Attributes.Remove: removeIndex = -1 when no entry has the name, then a[:removeIndex] panics (Attributes.go:73) *)
 Definition a_remove (a : attrs) (n : string) : res attrs :=
-  match last_index a n 0 None with
-  | None => Panic
-  | Some i => Ok (firstn i a ++ skipn (S i) a)
-  end.
+  match remove_last a n with None => Panic | Some r => Ok r end.
 Definition ca_remove (a : attrs) (n : string) : res attrs :=     (* ContainedAttributes.RemoveAttribute *)
   if a_has a n then a_remove a n else Ok a.
 
